@@ -1,8 +1,9 @@
 """C18 (see DESIGN.md section 6)."""
 from vlib.framework import PUnit, LUnit, BUnit
 from bounded import b_build as B
+from contracts import build_file as BF
 
-P_UNITS = []
+P_UNITS = [PUnit("tag-nodes", [BF.TAG_NODES], BF.REG)]
 
 
 def build(tier, seed):
